@@ -78,6 +78,16 @@ def run(ctx):
         nc = unicodedata.normalize("NFKC", pw)
         for alt in {nf, nc} - {pw}:
             cases.append((canon, canon, alt, "nfkd-equivalent-partner", None))
+    # layouts whose LENGTH equals that of the canonical phrase: exactly one single-byte white-space character between the words,
+    # nothing before or after, but not (only) the space — one word per line, tab-separated, one tab among spaces, CR, VT, FF
+    for L in LENS:
+        ws = [wl[i] for i in pyref.bip39_indices(rbytes(rng, LENS[L]))]
+        canon = " ".join(ws)
+        for sep in ("\n", "\t", "\r", "\x0b", "\x0c"):
+            cases.append((sep.join(ws), canon, rng.choice(["", "TREZOR"]), "layout/same-length", None))
+        k = rng.randrange(1, L)
+        cases.append((" ".join(ws[:k]) + "\t" + " ".join(ws[k:]), canon, "", "layout/same-length", None))
+        cases.append(("".join(w + rng.choice(ASCII_WS) for w in ws)[:-1], canon, "pw", "layout/same-length", None))
     # Unicode white space in the input phrase (separators or just padding): may be refused, but if the phrase is accepted the
     # seed is that of the canonical single-space phrase
     for L in LENS:
